@@ -1261,6 +1261,13 @@ def run(ctx):
     rule_TS(ctx, owners=["tree.Tree", "tree_node.TreeNode", "visitors.PreOrderNodeRelabeller"])
     ctx._own_rules = set(ctx.rule_min)
     imported(ctx, C06.rule_M4, fx)
+    # the SMC passes build every tree one proposal at a time: each arm must extend a copy of its parent's tree by
+    # exactly the new data point (same rule objects as C08.A1 / A2 / X1)
+    from . import C08
+
+    imported(ctx, C08.rule_B)
+    imported(ctx, C08.rule_A)
+    imported(ctx, C08.rule_X)
 
 
 # Self-test catalogue: one textual edit each, applied to a scratch copy (see selftest.py).
